@@ -259,7 +259,9 @@ func RunPipeline(seed int64, tier, driver, outDir string, n int, search bool, co
 	for i := 0; i < nm+nn; i++ {
 		var fails []string
 		var line string
-		if i < nm && i%6 == 4 {
+		if i < nm && i%6 == 3 {
+			fails, line = AutoRemoveScenario(seed*1000003 + int64(i))
+		} else if i < nm && i%6 == 4 {
 			fails, line = BindAnyScenario(seed*1000003 + int64(i))
 		} else if i < nm && i%6 == 5 {
 			fails, line = BusyTargetScenario(seed*1000003 + int64(i))
